@@ -187,6 +187,8 @@ class C38(Prop):
         'CylcModel.C38.symlink_dirs_ancestor_closed',
         'CylcModel.C38.clean_glob_contained',
         'CylcModel.C38.clean_contained',
+        'CylcModel.C38.clean_deletes_only',
+        'CylcModel.C38.tidy_removes_only_empty_dirs',
         'CylcModel.C38.clean_complete_partial',
         'CylcModel.C38.clean_complete_counterexample',
         'CylcModel.C38.clean_complete_counterexample_live',
@@ -204,18 +206,26 @@ class C38(Prop):
         'match reachable without a foreign symlink is gone afterwards, and with the guard probed as skipsMissing the removal loop never '
         'raises. NOT proved at full strength: "deletes every match" when an exception ends the call - false on the unguarded code '
         '(clean_complete_counterexample, findings C38 abort-on-removed-subpath, fix in findings/C38-fix-1.diff); after the fix an exception '
-        'can only come from remove_dir_and_target refusing a standard symlink dir (not characterised). The tidy-up after the deletion '
-        '(runN link, _cylc-install, empty parents of the run dir and of the symlink targets) is modelled and checked by the correspondence '
-        'and the judge, but has no theorem; the judge counts it as belonging to the workflow installation')
+        'can only come from remove_dir_and_target refusing a standard symlink dir (not characterised). (5) the whole of clean() including '
+        'the tidy-up deletes only entries inside the workflow or the tidy-up paths of the initial tree: the runN link and _cylc-install next '
+        'to the run dir, parent directories of the run dir below cylc-run and of the symlink targets inside their cylc-run/<id>/<dir> tail - '
+        'and those directories only when nothing is left below them. The conditions under which runN / _cylc-install may go (run gone, '
+        'nothing else left) are checked by the correspondence and the judge only; the judge counts the tidy-up as belonging to the workflow '
+        'installation')
     technique = ('resolution relation over an abstract file tree with symlinks; monotonicity of resolution under deletion; '
                  'loop invariants of the glob filter and of the removal loops; correspondence on real temporary trees')
     trusted = [
         'POSIX path resolution, lstat/stat, unlink, rmdir, and shutil.rmtree not following symlinks, as modelled in CylcModel/Fs.lean '
         '(validated by the correspondence: whole-sandbox snapshots before/after on real trees)',
-        'Python glob (recursive) is an input relation: the raw matches of every pattern are taken from glob.glob on the pristine tree by '
-        'the harness itself (not from the code under test); matches of a later pattern after earlier deletions = the initial ones that still exist',
+        'Python glob (recursive) is an input relation: the model is given what the glob.iglob calls of the run returned (recorded by the '
+        'harness, any raw result is covered by the theorems); the judge uses the harness\' own glob.glob of the pristine tree instead',
         'posixpath.normpath / str.strip / str.split as modelled (PathName.lean, PathClean.lean); str.isspace is an abstract predicate '
         'filled from Python for the characters of the case',
+        'the judge (Drv/C38.lean) reads the property as: a standard symlink dir = one of WorkflowFiles.SYMLINK_DIRS that is a symlink leading '
+        'to <root>/cylc-run/<id>/<dir> (component-wise); "what the pattern matches" = the harness\' own glob of the pristine tree, minus matches '
+        'behind a non-standard symlink; the tidy-up (runN link of this run once it is gone, _cylc-install once nothing else is left, empty '
+        'parents below cylc-run) belongs to the workflow; a matched symlink whose target directory is deleted in the same clean is not required '
+        'to go (a pattern with a trailing slash stops matching it)',
         'the order in which Python iterates the parsed pattern set is an environment hint (list(parse_rm_dirs(rm)) in the same process), '
         'checked to be a permutation of the model\'s parse',
     ]
@@ -298,8 +308,12 @@ class C38(Prop):
         def recording_iglob(pathname, *a, **kw):
             res = list(orig(pathname, *a, **kw))
             pathname = os.fspath(pathname)
-            if pathname.startswith(esc + '/') and not a and kw == {'recursive': True}:
-                calls.append([pathname[len(esc) + 1:], rels(res)])
+            plain = (not a and kw.get('recursive') and kw.get('root_dir') is None and kw.get('dir_fd') is None
+                     and not kw.get('include_hidden'))
+            for prefix in (esc + '/', run_dir + '/'):
+                if plain and pathname.startswith(prefix):
+                    calls.append([pathname[len(prefix):], rels(res)])
+                    break
             else:
                 bad_call.append(pathname)
             return iter(res)
@@ -318,6 +332,16 @@ class C38(Prop):
         return order, spec, raw, calls, err
 
     def impl(self, inp):
+        # the sandbox VM is sometimes paused and the pause is charged to the running process: a timer
+        # can expire spuriously, so a timed-out case is tried again (with more time) before it is reported
+        for limit in (60, 240):
+            res = self.impl_once(inp, limit)
+            if res is not None:
+                return res
+        return {'order': None, 'spec': None, 'raw': [], 'calls': [], 'space': '',
+                'obs': {'deleted': [], 'created': [], 'err': 'HarnessTimeout'}}
+
+    def impl_once(self, inp, limit):
         case_dir = tempfile.mkdtemp(prefix='c', dir=self.base)
         root = os.path.join(case_dir, 'sb')
         os.mkdir(root)
@@ -326,15 +350,14 @@ class C38(Prop):
         def on_alarm(*_a):
             raise CaseTimeout()
         old = signal.signal(signal.SIGALRM, on_alarm)
-        signal.alarm(60)
+        signal.alarm(limit)
         try:
             self.build(root, inp['tree'])
             before = snapshot(root)
             order, spec, raw, calls, err = self.run_clean(root, inp['home'], inp['id'], inp['rm'])
             after = snapshot(root)
         except CaseTimeout:
-            return {'order': None, 'spec': None, 'raw': [], 'calls': [], 'space': '',
-                    'obs': {'deleted': [], 'created': [], 'err': 'HarnessTimeout'}}
+            return None
         finally:
             signal.alarm(0)
             signal.signal(signal.SIGALRM, old)
